@@ -233,6 +233,29 @@ func TestDrive(t *testing.T) {
 			run = nil
 		}
 		for _, e := range c.Hist {
+			if e.K == "restore" {
+				// a manifest whose layer has the digest of the already stored blob "x" and another title
+				flush()
+				layer := ocispec.Descriptor{MediaType: "application/vnd.verif.blob", Digest: digest.FromBytes([]byte("new")), Size: 3,
+					Annotations: map[string]string{ocispec.AnnotationTitle: pathOf(root, e.Name, e.NAbs)}}
+				cfgb := []byte("{}")
+				m := ocispec.Manifest{MediaType: ocispec.MediaTypeImageManifest,
+					Config: ocispec.Descriptor{MediaType: "application/vnd.verif.cfg", Digest: digest.FromBytes(cfgb), Size: 2},
+					Layers: []ocispec.Descriptor{layer}}
+				m.SchemaVersion = 2
+				mb, _ := json.Marshal(m)
+				st, err := file.New(root + "/w")
+				if err != nil {
+					t.Fatal(err)
+				}
+				// the store must know the blob: push it (again) under its harmless title in this store instance
+				st.Push(ctx, ocispec.Descriptor{MediaType: "application/vnd.verif.blob", Digest: digest.FromBytes([]byte("new")), Size: 3,
+					Annotations: map[string]string{ocispec.AnnotationTitle: "x"}}, bytes.NewReader([]byte("new")))
+				perr := st.Push(ctx, ocispec.Descriptor{MediaType: ocispec.MediaTypeImageManifest, Digest: digest.FromBytes(mb), Size: int64(len(mb))}, bytes.NewReader(mb))
+				st.Close()
+				errs = append(errs, perr != nil)
+				continue
+			}
 			if e.K == "named" {
 				flush()
 				push(ocispec.Descriptor{MediaType: "application/vnd.verif.blob", Annotations: map[string]string{
